@@ -206,6 +206,15 @@ Example C10_nonvacuous_history :
          mkIssue SameDefsOneRow 2 nA; mkIssue SameDefsOneRow 3 na]]).
 Proof. exact ex_history_run. Qed.
 
+(* names with letters whose lower() differs from casefold() (sharp s, capital sharp s,
+   final sigma): every spelling is the same name *)
+Example C10_nonvacuous_nonascii_names :
+  casefold nMasz = [109%N; 97%N; 115%N; 115%N] /\
+  run state0 [[mk Onset nMasz; mk Onset nEchos]; [mk Inset nMASS; mk Inset nECHOS]; [mk Offset nmaSZ];
+              [mk Offset nMasz; mk Offset nECHOS]; [mk Inset nEchos]] =
+  ([], [[]; []; []; [mkIssue OffsetBeforeOnset 0 nMasz]; [mkIssue InsetBeforeOnset 0 nEchos]]).
+Proof. exact ex_nonascii_run. Qed.
+
 Example C10_nonvacuous_file :
   needs_sorting ex_rows = false /\
   process_file true None None ex_rows =
